@@ -173,6 +173,29 @@ pub mod arraydeque {
 }
 use arraydeque::ArrayDeque;
 
+// RELEASE BY NAME (`release-key` / `release-layer`, the ReleaseState arm of do_action applies this to
+// every active state): a key state ends iff it holds exactly the named key code, a layer state iff it
+// holds exactly the named layer - no other layer, no other key; every other state is kept unchanged
+//@ item keyberon/src/action.rs enum ReleasableState
+//@@ keep-vis
+//@@ no-derives
+//@ raw
+impl Copy for ReleasableState {}
+impl Clone for ReleasableState { fn clone(&self) -> Self { *self } }
+spec fn named_by<'a, T>(st: State<'a, T>, s: ReleasableState) -> bool {
+    match st {
+        State::NormalKey { keycode, .. } => s == ReleasableState::KeyCode(keycode),
+        State::FakeKey { keycode } => s == ReleasableState::KeyCode(keycode),
+        State::LayerModifier { value, .. } => s == ReleasableState::Layer(value),
+        _ => false,
+    }
+}
+//@ item keyberon/src/layout.rs fn release_state in `State<'a, T>`
+//@@ wrap impl<'a, T: 'a> State<'a, T>
+//@@ ret r
+//@@ spec
+    ensures
+        r == (if named_by(*self, s) { None } else { Some(*self) }),
 //@ item keyberon/src/action.rs enum Action
 //@@ no-derives
 //@@ keep-vis
